@@ -107,7 +107,13 @@ func (u *Unit) sortOf(t types.Type) Sort {
 
 func structName(t types.Type) string {
 	if n, ok := t.(*types.Named); ok {
-		return smtName(typeKey(n.Origin()))
+		// generic types: one name for all instantiations (type arguments do
+		// not change the field layout)
+		obj := n.Origin().Obj()
+		if obj.Pkg() != nil && obj.Pkg().Path() != curPkgPath {
+			return smtName(obj.Pkg().Name() + "." + obj.Name())
+		}
+		return smtName(obj.Name())
 	}
 	return smtName(typeKey(t))
 }
@@ -331,6 +337,7 @@ func (e *Engine) typeConstID(k string) int {
 // prelude declarations shared by all queries.
 const preludeSMT = `(declare-datatypes ((Iface 0)) (((mk_iface (ity Int) (ival Int)))))
 (define-fun nil_iface () Iface (mk_iface 0 0))
+(define-fun ifaceEq ((a Iface) (b Iface)) Bool (and (= (ity a) (ity b)) (or (= (ity a) 0) (= (ival a) (ival b)))))
 (declare-datatypes ((Slice 0)) (((mk_slice (sarr Int) (soff Int) (slen Int) (scap Int)))))
 (define-fun nil_slice () Slice (mk_slice 0 0 0 0))
 (define-fun wfSlice ((s Slice)) Bool (and (<= 0 (soff s)) (<= 0 (slen s)) (<= (slen s) (scap s)) (<= (+ (soff s) (scap s)) 4611686018427387904) (=> (= (sarr s) 0) (= (scap s) 0))))
